@@ -30,6 +30,8 @@ class FlowMixin:
                     out.append(("raise", s1, t))
                     continue
                 forked = bool(s1.trace) and s1.trace[-1].kind == "cond" and s1.trace[-1].node is not None and self._within(n.test, s1.trace[-1].node)
+                # `flag = True; while flag: ..` is `while True` with the exits moved into the flag: its iterations are input-driven too
+                forked = forked or self._is_flag(n.test, s1.envs.get(fr.fid, {}))
                 if not t:
                     self.event(s1, fr, "loop-exit", n, ntot)
                     out.extend(self.exec_block(n.orelse, s1, fr) if n.orelse else [("next", s1, None)])
@@ -58,6 +60,18 @@ class FlowMixin:
     @staticmethod
     def _is_true(test):
         return isinstance(test, ast.Constant) and bool(test.value)
+
+    @staticmethod
+    def _is_flag(test, env):
+        """a test made only of local names holding True/False combined by not / and / or: a boolean flag, not a counter"""
+        for x in ast.walk(test):
+            if isinstance(x, ast.Name):
+                v = env.get(x.id)
+                if not (isinstance(v, Const) and isinstance(v.v, bool)):
+                    return False
+            elif not isinstance(x, (ast.UnaryOp, ast.Not, ast.BoolOp, ast.And, ast.Or, ast.Load)):
+                return False
+        return True
 
     @staticmethod
     def _within(root, node):
@@ -359,12 +373,39 @@ class FlowMixin:
         except Exception as exc:  # refinement is best-effort precision, never soundness
             self.warn("refine failed: %r" % (exc,))
 
+    def refine_deferred(self, node, pol, st, fr, vals, fid):
+        """refinement for a comparison that was evaluated earlier (its result was kept in a variable / returned by a helper) and is
+        decided only now: the operand *values* are the ones of that time, so only facts about values are learned; variables are
+        narrowed only if they still hold the very operand value"""
+        self._deferred = (fid == fr.fid)
+        self._deferred_on = True
+        try:
+            self.refine(node, pol, st, fr, vals)
+        finally:
+            self._deferred_on = False
+
+    _deferred_on = False
+    _deferred = False
+
+    def _set_pv(self, a_node, newval, st, fr, expect=None):
+        """set_path_value that, for deferred comparisons, insists the variable still holds the operand value"""
+        if self._deferred_on:
+            if not self._deferred:
+                return
+            cur = self.get_path_value(a_node, st, fr)
+            if cur is None or expect is None or not hasattr(cur, "key") or norm(cur).key() != norm(expect).key():
+                return
+        self.set_path_value(a_node, newval, st, fr)
+
     def _refine(self, node, pol, st, fr, vals=None):
         if isinstance(node, (ast.Name, ast.Attribute)):
             cur = self.get_path_value(node, st, fr)
             if cur is None:
                 return
             cur = norm(cur)
+            if isinstance(cur, Unknown) and cur.ty == "bool":
+                self.set_path_value(node, Const(bool(pol)), st, fr)
+                return
             if isinstance(cur, Bytes):
                 l = as_lin(norm(cur.length()))
                 if l is not None and l.terms:
@@ -375,6 +416,8 @@ class FlowMixin:
                     self.set_path_value(node, Const(False), st, fr)
                 elif isinstance(cur, (BitV, Lin)) or (isinstance(cur, Sym) and cur.ty == "int"):
                     self.set_path_value(node, Const(0), st, fr)
+                    if isinstance(cur, BitV) and all(x in (0, 1) or (isinstance(x, tuple) and x[0] == "s") for x in cur.bits + (cur.hi,)):
+                        st.extra["zero"] = set(st.extra.get("zero", ())) | {cur.key()}
                     # every local that holds the very same abstract value is zero as well
                     env = st.envs[fr.fid]
                     ck_ = cur.key()
@@ -469,6 +512,10 @@ class FlowMixin:
                        ast.GtE: ast.Lt, ast.Is: ast.IsNot, ast.IsNot: ast.Is, ast.In: ast.NotIn, ast.NotIn: ast.In}
                 op = inv[type(op)]()
             lv, rv = self.peek(lhs, st, fr), self.peek(rhs, st, fr)
+            if self._deferred_on:
+                if not (isinstance(vals, tuple) and len(vals) == 2):
+                    return
+                lv, rv = vals
             if isinstance(vals, tuple) and len(vals) == 2:
                 # the operands as they were evaluated (covers operands peek() cannot re-evaluate without side effects)
                 lv = vals[0] if lv is None else lv
@@ -480,19 +527,28 @@ class FlowMixin:
             if t in (ast.Is, ast.IsNot) and isinstance(rv, Const) and rv.v is None:
                 if isinstance(lv, Sym) and isinstance(lhs, (ast.Name, ast.Attribute)):
                     if t is ast.Is:
-                        self.set_path_value(lhs, Const(None), st, fr)
+                        self._set_pv(lhs, Const(None), st, fr, lv)
                     else:
                         at = dict(lv.attrs)
                         at.pop("maybenone", None)
                         at["notnone"] = True
-                        self.set_path_value(lhs, Sym(lv.name, lv.ty, **at), st, fr)
+                        self._set_pv(lhs, Sym(lv.name, lv.ty, **at), st, fr, lv)
                 return
             if t is ast.In and isinstance(rv, Seq) and len(rv.items) == 1:
                 t, rv = ast.Eq, norm(rv.items[0])
+            if t in (ast.Eq, ast.NotEq):
+                # x != 0 / x == 0 for a bit-vector: remembered by value, so every copy of the value answers truth tests alike
+                for a, b in ((lv, rv), (rv, lv)):
+                    if isinstance(a, BitV) and isinstance(b, Const) and b.v == 0 and not isinstance(b.v, bool):
+                        exact = all(x in (0, 1) or (isinstance(x, tuple) and x[0] == "s") for x in a.bits + (a.hi,))
+                        if t is ast.NotEq:
+                            st.extra["nonzero"] = set(st.extra.get("nonzero", ())) | {a.key()}
+                        elif exact:
+                            st.extra["zero"] = set(st.extra.get("zero", ())) | {a.key()}
             if t is ast.Eq:
                 for a_node, a, b in ((lhs, lv, rv), (rhs, rv, lv)):
                     if isinstance(b, Const) and not isinstance(a, Const) and isinstance(a_node, (ast.Name, ast.Attribute)):
-                        self.set_path_value(a_node, b, st, fr)
+                        self._set_pv(a_node, b, st, fr, a)
             la, lb = as_lin(lv), as_lin(rv)
             if la is not None and lb is not None and (la.terms or lb.terms):
                 d = lin_add(la, lb, -1)  # lhs - rhs
@@ -528,7 +584,7 @@ class FlowMixin:
                 else:
                     continue
                 if isinstance(a, (BitV, Sym)) and (isinstance(a, BitV) or a.ty in ("int", "bool")):
-                    self.set_path_value(a_node, with_range(a, lo, hi), st, fr)
+                    self._set_pv(a_node, with_range(a, lo, hi), st, fr, a)
 
     def peek(self, node, st, fr):
         """side-effect free value of simple expressions used in guards"""
